@@ -57,9 +57,9 @@ def _shard(items):
         if issues:
             # error text that is unstable under repetition (hash order) is C11's business
             stable = True
-            for _ in range(5):
+            for _ in range(6):
                 r2 = w.call(req)
-                if sorted(i["kind"] for i in r2.get("issues", [])) != sorted(i["kind"] for i in issues):
+                if sorted(i["kind"] for i in r2.get("issues", [])) != sorted(i["kind"] for i in issues) or r2.get("direct") != r.get("direct"):
                     stable = False
                     break
             if not stable:
